@@ -146,3 +146,21 @@ package mux
 //@ nopanic [C09] forChildren
 //@ nopanic [C09] iqFallback
 // END enrolment C09
+
+// C07: every IQ whose start element parses and whose payload position could be
+// read (a payload element, or the end of an empty IQ) is handed to a handler:
+// the one registered for the payload or the fallback, which answers get/set
+// with service-unavailable. An IQ without payload is not the end of the stream.
+//@ func (*ServeMux).iqRouter
+//@   ghost tokErr error
+//@   ghost isStart bool = false
+//@   ghost handled bool = false
+//@   ghost parsed bool = false
+//@   callsite mellium.im/xmpp/stanza.NewIQ#1
+//@     after: parsed = ret1 == nil
+//@   callsite Token#1
+//@     after: tokErr = ret1
+//@     after: isStart = ret0 == nil || typeof(ret0) == xml.StartElement
+//@   callsite (mellium.im/xmpp/mux.IQHandler).HandleIQ#1
+//@     after: handled = true
+//@   ensures[C07] parsed && isStart && (tokErr == nil || tokErr == io.EOF) ==> handled
